@@ -474,10 +474,12 @@ class MemOrchestrator(BaseOrchestrator):
         new_record: InvocationStatusRecord,
     ) -> InvocationStatusRecord:
         """Sets the status record of a specific invocation."""
-        if prev_status_record:
-            self.status_index[prev_status_record.status].discard(invocation_id)
+        # Enter the new status index before leaving the old one: concurrent readers of the
+        # index (concurrency control checks) must never find the invocation in neither
         self.status_index[new_record.status].add(invocation_id)
         self.invocation_status_record[invocation_id] = new_record
+        if prev_status_record and prev_status_record.status != new_record.status:
+            self.status_index[prev_status_record.status].discard(invocation_id)
         return new_record
 
     def index_arguments_for_concurrency_control(
